@@ -8,7 +8,7 @@ PID = "C20"
 RULE = ("shapes of every kind (Empty, Whole, simple bounded/unbounded, holes, several components) whose boundaries mix "
         "segments of degree 1, 2 and 3 (degree checked AFTER construction, which degree-reduces), a quarter of the curved "
         "segments with a zero-length handle (two coincident consecutive control points), plotted with "
-        "ShapePloter on an Agg canvas; observables: number, order and kind of the patches added to the axes, "
+        "ShapePloter on an Agg canvas; sequences of shapes through the same control points grouped into different segment degrees, drawn one after the other in one process; observables: number, order and kind of the patches added to the axes, "
         "Path.vertices / Path.codes of every patch decoded by the harness's own reader of matplotlib path codes, face "
         "colours (filled vs white hole), background, shape data before/after; non-trivial = at least one curved segment "
         "or more than one boundary curve; distinct = SHA-1")
@@ -53,6 +53,15 @@ def cases(ctx):
     yield {"shape": ("C", [G.verts_to_jordan(G.ccw([(F(0), F(0)), (F(10), F(0)), (F(10), F(7)), (F(0), F(7))])), comb])}
     for i in range(ctx.n(4, 60)):
         yield {"shape": G.unbounded_connected(rng, R=rng.choice([8, 12]))}
+    # the same control points, in the same order, grouped differently (polygon / quadratic / cubic pieces), drawn one
+    # after the other
+    for i in range(ctx.n(6, 80)):
+        vs = G.ccw(G.star_polygon(rng, n=rng.choice([4, 6, 6, 8]), R=8, center=(0, 0), rmin=0.7))
+        members = [("S", G.verts_to_jordan(vs))] + [("S", _regroup(vs, rng)) for _ in range(2)]
+        rng.shuffle(members)
+        if i % 3 == 2:
+            members = [("S", U.reverse_jordan(m[1])) for m in members]
+        yield {"seq": members, "num": "float" if i % 2 else "frac"}
     for i in range(ctx.n(40, 600)):
         s = G.any_shape(rng, R=rng.choice([6, 12]), kinds=("S", "S", "U", "C", "D"))
         degs = [(1,), (1, 2), (1, 2, 3), (2, 3), (3,)][i % 5]
@@ -68,7 +77,21 @@ def cases(ctx):
         yield {"shape": s2, "num": "float" if i % 2 else "frac"}
 
 
+def _regroup(vs, rng):
+    """a closed curve through the same control points in the same order, grouped into segments of degree 1, 2 or 3"""
+    n = len(vs)
+    j, i = [], 0
+    while i < n:
+        d = rng.choice([1, 2, 3])
+        d = min(d, n - i)
+        j.append([vs[(i + t) % n] for t in range(d + 1)])
+        i += d
+    return j
+
+
 def nontrivial(case):
+    if "seq" in case:
+        return True
     s = case["shape"]
     js = O.shape_jordans(s)
     return len(js) > 1 or any(len(sg) > 2 for j in js for sg in j)
@@ -134,6 +157,15 @@ def _close_curve(a, b, tol):
 
 
 def check(ctx, case):
+    if "seq" in case:
+        # several shapes drawn one after the other in the same process: each drawing depends on its own shape only
+        fails = []
+        for k, sh in enumerate(case["seq"]):
+            ctx.count("sequence member")
+            for f in check(ctx, {"shape": sh, "num": case.get("num", "frac")}):
+                f["what"] = "drawn as number %d of a sequence: %s" % (k + 1, f.get("what"))
+                fails.append(f)
+        return fails
     import matplotlib
     matplotlib.use("Agg")
     from matplotlib import pyplot
